@@ -55,7 +55,7 @@ META = {
   "design_ref": "DESIGN.md 4 (C12)", "note": "Trusted base: harness + strconv. For environment text invalid for the type only the value is asserted.",
   "technique": "property-based testing (rapid) + exhaustive small-scope enumeration against a precedence table"},
  "C13": {
-  "text": "Controlled-scheduler property-based testing: the harness owns completion order and outcomes (generated, shrinkable, replayable); entry invariants checked at every task entry over random graphs x modes x retries; every completion order enumerated exhaustively for all labelled DAGs up to 4 tasks (5 in thorough, success-only); free-running variants under the race detector: plain shared slots for visibility, and two concurrently running graphs over the same Task objects in which tasks that never return nil must keep their dependents from starting in either graph; DepthFirstSort calls in the middle of the definition." + _HELD,
+  "text": "Controlled-scheduler property-based testing: the harness owns completion order and outcomes (generated, shrinkable, replayable); entry invariants checked at every task entry over random graphs x modes x retries; every completion order enumerated exhaustively for all labelled DAGs up to 4 tasks (5 in thorough, success-only); free-running variants under the race detector: plain shared slots for visibility, and two concurrently running graphs over the same Task objects in which tasks that never return nil must keep their dependents from starting in either graph; DepthFirstSort calls in the middle of the definition; a graph extended and Run again after a failure must not enter tasks added on top of failed or never-started ones." + _HELD,
   "design_ref": "DESIGN.md 5 (C13)", "note": _DAG_NOTE,
   "technique": "stateful property-based testing with a harness-owned schedule (rapid) + exhaustive small-scope schedule enumeration + race-detector runs"},
  "C14": {
@@ -63,7 +63,7 @@ META = {
   "design_ref": "DESIGN.md 5 (C14)", "note": _DAG_NOTE,
   "technique": "fault-injecting stateful property-based testing (rapid) + exhaustive small-scope enumeration of outcomes x completion orders"},
  "C15": {
-  "text": "Same controlled scheduler with wide graphs and binding limits: in-flight count at every entry <= SetMaxParallel(m) / 1 in serial mode; buffered output must arrive as contiguous per-attempt blocks although fragments of concurrent tasks are forced to interleave; free-running read-spin-write counter (serial, m=1) and Tasks shared by two concurrently running graphs (also when one graph first learned the id through another Task object) under the race detector; staged runs of one graph (Run, add tasks, SetMaxParallel(new), Run) against the limit in force at each Run." + _HELD,
+  "text": "Same controlled scheduler with wide graphs and binding limits: in-flight count at every entry <= SetMaxParallel(m) / 1 in serial mode; buffered output must arrive as contiguous per-attempt blocks although fragments of concurrent tasks are forced to interleave; free-running read-spin-write counter (serial, m=1) and Tasks shared by two concurrently running graphs (also when one graph first learned the id through another Task object) under the race detector; staged runs of one graph (Run, add tasks, SetMaxParallel(new), Run) against the limit in force at each Run; serial mode combined with SetMaxParallel in either order still runs one at a time; two concurrently running graphs buffering into one synchronised writer must deliver whole per-attempt blocks." + _HELD,
   "design_ref": "DESIGN.md 5 (C15)", "note": _DAG_NOTE,
   "technique": "stateful property-based testing with a harness-owned schedule (rapid) + race-detector runs of free-running variants"},
  "C16": {
@@ -71,7 +71,7 @@ META = {
   "design_ref": "DESIGN.md 5 (C16)", "note": _DAG_NOTE + " A stall is reported only with its signature and after an isolated replay with a 30 s bound.",
   "technique": "stateful (call-history) property-based testing (rapid) with bounded-wait liveness oracle + exhaustive small-scope enumeration"},
  "C17": {
-  "text": "Property-based search over command trees x COMP_LINE texts x bash/zsh, in-process through the exit/writer hook: candidate sets compared as sets with an independent computation (names/aliases with the typed prefix at the level reached; subcommands + static + dynamic suggestions; suggested/valid values), sortedness, exit exactly once with 124, no CommandFn, and every offered option/command is accepted by the real parser at that position." + _HELD,
+  "text": "Property-based search over command trees x COMP_LINE texts x bash/zsh, in-process through the exit/writer hook: candidate sets compared as sets with an independent computation (names/aliases with the typed prefix at the level reached; subcommands + static + dynamic suggestions; suggested/valid values), sortedness, exit exactly once with 124, no CommandFn, and every offered option/command is accepted by the real parser at that position (the latter also when the last word stands where an open-ended option before it takes it as a value: no candidate set is asserted there, only that offered commands run as commands)." + _HELD,
   "design_ref": "DESIGN.md 4 (C17)", "note": _CLI_NOTE + " Uses the verif hook (exit function, completion writer). Require-order on the program (the program name is then the stop token) and `--` among earlier words are outside the statement; wrapper commands with require-order are judged until their stop token.",
   "technique": "property-based testing (rapid) with set-equality oracle + parser cross-check; rapid-via-native-fuzz in thorough"},
  "C18": {
